@@ -9,6 +9,8 @@
 //!           false, reload() / refresh() Ok, commit writes nothing, a later deletion-only commit writes no pack.
 //!  resolution: an object conflict resolved with resolve_as (winner / other leaf), export = stage(), unstage() restores the
 //!           conflict, replay_stage(export) restores the resolved state (in_conflict, winners, value), commit, propagation.
+//!  cache-cap: commit v1; edit v2; unstage; edit v3; unstage; edit v2; commit; reopen — with the object cache capped at
+//!           1 / 2 / 16 / 64 entries (MELDA_DATA_CACHE_CAP) and 1 / 3 / 20 objects: committing and reopened replica read v2.
 //!  replay:  objects with chains of staged revisions; export = stage(); unstage() restores the committed state exactly;
 //!           replay_stage(export) succeeds and restores exactly the staged state (stage() equal as sets, same winners).
 use crate::Report;
@@ -213,11 +215,52 @@ fn resolution_case(choose_winner: bool) -> Result<(), String> {
     match r { Ok(x) => x, Err(p) => Err(format!("panic: {}", p)) }
 }
 
+/// commit v1; edit v2; unstage; edit v3; unstage; edit v2; commit; reopen — under a given capacity of the object cache
+/// (MELDA_DATA_CACHE_CAP, read when a replica is created): the reopened replica reads v2 for every object
+fn cache_cap_case(cap: usize, nobj: usize) -> Result<(), String> {
+    std::env::set_var("MELDA_DATA_CACHE_CAP", cap.to_string());
+    let r = super::guarded(move || -> Result<(), String> {
+        let (mut m, a) = new_replica()?;
+        let val = |i: usize, v: &str| obj(json!({"i": i, "version": v, "pad": "x".repeat(8 + i)}));
+        for i in 0..nobj {
+            m.update_object(&format!("o{}", i), val(i, "v1")).map_err(|e| e.to_string())?;
+        }
+        m.commit(None).map_err(|e| e.to_string())?.ok_or("no commit")?;
+        for v in ["v2", "v3"] {
+            for i in 0..nobj {
+                m.update_object(&format!("o{}", i), val(i, v)).map_err(|e| e.to_string())?;
+            }
+            m.unstage().map_err(|e| e.to_string())?;
+            for i in 0..nobj {
+                let got = m.get_value(&format!("o{}", i), None).map_err(|e| e.to_string())?;
+                if got != val(i, "v1") { return Err(format!("after unstage o{} reads {:?}", i, got)); }
+            }
+        }
+        for i in 0..nobj {
+            m.update_object(&format!("o{}", i), val(i, "v2")).map_err(|e| e.to_string())?;
+        }
+        m.commit(None).map_err(|e| e.to_string())?.ok_or("second commit returned None")?;
+        for (who, r) in [("committing replica", None), ("reopened replica", Some(Melda::new(a.clone()).map_err(|e| format!("reopen: {}", e))?))] {
+            let rr = r.as_ref().unwrap_or(&m);
+            for i in 0..nobj {
+                match rr.get_value(&format!("o{}", i), None) {
+                    Ok(got) if got == val(i, "v2") => {}
+                    Ok(got) => return Err(format!("{}: o{} reads {} instead of v2", who, i, Value::Object(got))),
+                    Err(e) => return Err(format!("{}: o{} cannot be read: {}", who, i, e)),
+                }
+            }
+        }
+        Ok(())
+    });
+    std::env::remove_var("MELDA_DATA_CACHE_CAP");
+    match r { Ok(x) => x, Err(p) => Err(format!("panic: {}", p)) }
+}
+
 pub fn run(thorough: bool, _seed: u64) -> Report {
     let rounds = if thorough { 40 } else { 6 };
     let mut rep = Report::new(
         "stage_api",
-        &format!("guards: 5 kinds of staged change (3 of them without any new object content) x {{reload, refresh, reload_until(heads), reload_until(empty set), reload_until(old heads)}}; create-remove: create_object + remove_object + unstage on a fresh replica and on one with history (then a deletion-only commit must write no pack); resolution: export / unstage / replay_stage of a staged resolve_as (winner and other leaf), then commit and propagation; replay: {} rounds x {{4, 12, 24 objects}} x chains of 1..4 staged revisions per object (independently seeded hash maps each round)", rounds),
+        &format!("guards: 5 kinds of staged change (3 of them without any new object content) x {{reload, refresh, reload_until(heads), reload_until(empty set), reload_until(old heads)}}; create-remove: create_object + remove_object + unstage on a fresh replica and on one with history (then a deletion-only commit must write no pack); resolution: export / unstage / replay_stage of a staged resolve_as (winner and other leaf), then commit and propagation; cache-cap: v1 committed, v2 / v3 staged and discarded, v2 committed, reopened, for cache capacities 1, 2, 16, 64 x 1, 3, 20 objects; replay: {} rounds x {{4, 12, 24 objects}} x chains of 1..4 staged revisions per object (independently seeded hash maps each round)", rounds),
         "fixed scenario list; replay rounds differ only in hash-map seeds (export order); non-trivial = chain length >= 2",
     );
     for k in ["new-content", "delete-only", "revert-to-committed-content", "create-empty-object", "delete-and-revert"] {
@@ -251,6 +294,16 @@ pub fn run(thorough: bool, _seed: u64) -> Report {
             }
         }
     }
+    // last: the capacity is a process-wide environment variable
+    for cap in [1usize, 2, 16, 64] {
+        for nobj in [1usize, 3, 20] {
+            let key = format!("cache-cap:{}:n{}", cap, nobj);
+            rep.case(&key, true);
+            if let Err(w) = cache_cap_case(cap, nobj) {
+                rep.fail(&key, json!({"kind": "cache-cap", "cap": cap, "nobj": nobj}), &w);
+            }
+        }
+    }
     rep
 }
 
@@ -260,6 +313,8 @@ pub fn replay(case: &Value) -> Value {
         guard_case(i["staged"].as_str().unwrap_or(""))
     } else if i["kind"] == "create-remove" {
         create_remove_case(i["with_history"].as_bool().unwrap_or(true))
+    } else if i["kind"] == "cache-cap" {
+        cache_cap_case(i["cap"].as_u64().unwrap_or(16) as usize, i["nobj"].as_u64().unwrap_or(3) as usize)
     } else if i["kind"] == "resolution" {
         resolution_case(i["choose_winner"].as_bool().unwrap_or(true))
     } else {
